@@ -200,6 +200,8 @@ PARTS = {
 }
 
 
+HYP = {"roundtrip": (lambda ctx: roundtrip_case(), check_roundtrip)}
+
 def run(ctx):
     quick = ctx.tier == "quick"
     maxlen = 5 if quick else 7
@@ -220,7 +222,7 @@ def run(ctx):
         max_size=40,
     )
     ctx.hyp(text, lambda s: check_total(ctx, s, part="total-random"), 1500 if quick else 40000, salt=1)
-    ctx.hyp(roundtrip_case(), lambda c: check_roundtrip(ctx, c), 3000 if quick else 80000, salt=2)
+    ctx.hyp_sharded("roundtrip", 12000 if quick else 160000, salt=2)
     try:
         from props import c01
     except ImportError:
